@@ -174,6 +174,9 @@ def nopOf (j : Json) : P NOp := do
   match ← asArr j with
   | [.str "rmlane", l] => pure (.removeLanelet (← asInt l))
   | [.str "addlane", l] => pure (.addLanelet (← asInt l))
+  | [.str "clearlane", l] => pure (.clearLanelet (← asInt l))
+  | [.str "set", o, f] => pure (.setFwd (← asInt o) (← presetOf f))
+  | [.str "query"] => pure .query
   | _ => pure (.op (← opOf j))
 
 def nrunOps (E : Env) (legacy : Bool) (show_ : NSt → Json) : NSt → List NOp → List Json
